@@ -240,9 +240,17 @@ def strat_multi(draw, tier="quick"):
         for nm, v in m["truth"].items():
             truth.setdefault(nm, v)
     cons = draw(S.constraints_for(allnames, truth, max_n=2))
+    # xy members brought to one size (so that an uncertainty can be shared between them later in the history)
+    xy = [m for m in members if m["type"] == "xy"]
+    if len(xy) >= 2 and draw(st.booleans()):
+        n_min = min(len(m["x"]) for m in xy)
+        if n_min >= max(len(fs.par_names(m)) for m in xy) + 1:
+            for m in xy:
+                m["x"], m["y"] = m["x"][:n_min], m["y"][:n_min]
     ops = draw(st.lists(st.one_of(
         st.fixed_dictionaries({"op": st.sampled_from(["fix", "fix", "release"]), "par": st.integers(0, 8)}),
         st.fixed_dictionaries({"op": st.just("do_fit")}),
+        st.fixed_dictionaries({"op": st.just("shared_error"), "rel": st.floats(0.2, 1.0)}),
         st.fixed_dictionaries({"op": st.just("check"), "pt": st.lists(st.floats(-1, 1), min_size=4, max_size=4)}),
     ), min_size=1, max_size=6))
     return {"members": members, "constraints": cons, "ops": ops, "truth": truth, "names": allnames}
@@ -273,6 +281,7 @@ def run_multi(case):
     if shared:
         labels.add("shared_parameter")
     did_hist = False
+    shared_on = False
     for i, op in enumerate(case["ops"] + [{"op": "check", "pt": [0.1, -0.2, 0.3, 0.05]}]):
         if op["op"] == "fix":
             nm = names[op["par"] % len(names)]
@@ -290,6 +299,15 @@ def run_multi(case):
                 multi.release_parameter(nm)
             del fixed[nm]
             did_hist = True
+        elif op["op"] == "shared_error":
+            # an uncertainty shared between all xy members of equal size, declared in the middle of the history (after parameters may have been fixed)
+            idx = [j for j, m in enumerate(members) if m["type"] == "xy"]
+            if shared_on or len(idx) < 2 or len({len(members[j]["x"]) for j in idx}) != 1:
+                continue
+            with guard("multi.add_error(shared)"):
+                multi.add_error(float(op["rel"]) * min(members[j]["sigma"] for j in idx), fits=idx, axis="y", name="shared_y")
+            shared_on = True
+            labels.add("shared_error_added_mid_history")
         elif op["op"] == "do_fit":
             try:
                 multi.do_fit()
@@ -313,6 +331,8 @@ def run_multi(case):
             if int(got_ndf) != want_ndf:
                 raise Violation("ndf[multi]", f"op {i}: multi.ndf={got_ndf}; data points {n_data} + constraint rows {n_con} (members {n_con - multi_ref_cons.n_constraint_rows()}, multi-fit "
                                 f"{multi_ref_cons.n_constraint_rows()}) - parameters {len(names)} + fixed {len(fixed)} = {want_ndf}")
+            if shared_on:
+                continue  # with a shared source the goodness of fit is that of the joint fit (C11's subject); here only the number of degrees of freedom is judged
             with np.errstate(all="ignore"):
                 gofs = [ref_gof(r, {nm: p[nm] for nm in r.names}) for r in refs]
             want_gof = float(sum(gofs) + multi_ref_cons.constraint_cost(p))
